@@ -393,6 +393,12 @@ func diffIn(path string, a, b *Node, defaults map[string]string, out *[]string, 
 		*out = append(*out, mapDropped+fmt.Sprintf("%s: supplied %s, arrived %s", path, clipS(a.String(), 300), clipS(b.String(), 300)))
 		return
 	}
+	if strings.HasPrefix(a.T, "list") && a.T == b.T && len(a.C) == 0 && len(b.C) == 1 && b.C[0].T == "str" && b.C[0].V == `""` {
+		// An empty list of texts written in a joined (non-exploded) style is an empty value on the wire, which reads
+		// back as one empty text: its own class (one cause whatever the operation; known finding F-15).
+		*out = append(*out, emptyList+fmt.Sprintf("%s: supplied %s, arrived %s", path, a.String(), b.String()))
+		return
+	}
 	if a.T != b.T || a.V != b.V || len(a.C) != len(b.C) {
 		*out = append(*out, fmt.Sprintf("%s: supplied %s, arrived %s", path, clipS(a.String(), 300), clipS(b.String(), 300)))
 		return
@@ -480,6 +486,9 @@ func mergeExtra(n *Node) *Node {
 
 // ctParams marks a media type that arrived as the bare type.
 const ctParams = "CTPARAMS "
+
+// emptyList marks an empty list of texts that arrived as one empty text.
+const emptyList = "EMPTYLIST "
 
 // numULP marks a number that arrived one unit in the last place away.
 const numULP = "NUMULP "
@@ -787,6 +796,10 @@ func (g *vgen) value(t reflect.Type, depth int, hint string) reflect.Value {
 				b[i] = byte(g.r.next())
 			}
 			b[0] = 0x20
+			if g.r.intn(4) == 0 {
+				// an IPv4-mapped IPv6 address (::ffff:a.b.c.d) is an IPv6 address and not the IPv4 address it maps
+				copy(b[:12], []byte{0, 0, 0, 0, 0, 0, 0, 0, 0, 0, 0xff, 0xff})
+			}
 			v.Set(reflect.ValueOf(netip.AddrFrom16(b)))
 		} else {
 			v.Set(reflect.ValueOf(netip.AddrFrom4([4]byte{byte(1 + g.r.intn(200)), byte(g.r.next()), byte(g.r.next()), byte(1 + g.r.intn(200))})))
@@ -1398,6 +1411,10 @@ func (r *CallRecord) sealTyped(pkg string) {
 				add(fmt.Sprintf("request/media type arrived without its parameters (delivery %d): %s", i, d[len(ctParams):]))
 				continue
 			}
+			if strings.HasPrefix(d, emptyList) {
+				add(fmt.Sprintf("request/empty list arrived as one empty text (delivery %d): %s", i, d[len(emptyList):]))
+				continue
+			}
 			add(fmt.Sprintf("request/handler received a different value (delivery %d): %s", i, d))
 		}
 		var ss []string
@@ -1467,6 +1484,10 @@ func (r *CallRecord) sealTyped(pkg string) {
 				}
 				if strings.HasPrefix(d, ctParams) {
 					add("response/media type arrived without its parameters: " + d[len(ctParams):])
+					continue
+				}
+				if strings.HasPrefix(d, emptyList) {
+					add("response/empty list arrived as one empty text: " + d[len(emptyList):])
 					continue
 				}
 				add("response/caller received a different value: " + d)
